@@ -172,7 +172,16 @@ def rule_seq(repo: Repo, rep: Report) -> int:
     add = repo.method(cb, "add_step")
     ok = any(match(n_, "self.steps.append(step)") is not None for n_ in ast.walk(add.node))
     wrong = any(isinstance(n_, ast.Call) and attr_chain(n_.func) == "self.steps.insert" for n_ in ast.walk(add.node))
-    rep.shape(ok, wrong, "SEQ-LIST", add, "add_step appends to self.steps", "new stage goes to the end of the declared order", "add_step does not append the new stage at the end of self.steps")
+    guard = _append_guard(add, "self.steps.append")
+    if ok and not wrong and guard is not None:
+        # the append is there but only runs under a condition: every declared stage must be appended, each declaration once
+        dup = any(isinstance(c_, ast.Compare) and any(isinstance(o_, (ast.In, ast.NotIn, ast.Is, ast.IsNot, ast.Eq, ast.NotEq)) for o_ in c_.ops) and "self.steps" in unparse(c_) for c_ in ast.walk(guard.test))
+        if dup:
+            rep.violation("SEQ-LIST", add, f"add_step appends only if {unparse(guard.test)[:70]}", "a stage that is declared a second time (the same object / an equal stage already in the list) is silently dropped: the pipeline no longer runs the declared sequence, each declared entry once, and later remove_step indices refer to a shorter list than the declared one", node=guard)
+        else:
+            rep.undecided("SEQ-LIST", add, f"add_step appends only if {unparse(guard.test)[:70]}", "conditional append", node=guard)
+    else:
+        rep.shape(ok, wrong, "SEQ-LIST", add, "add_step appends to self.steps", "new stage goes to the end of the declared order", "add_step does not append the new stage at the end of self.steps")
     rem = repo.method(cb, "remove_step")
     ok = any(match(n_, "self.steps.pop(index)") is not None for n_ in ast.walk(rem.node)) or any(match(n_, "del self.steps[index]") is not None for n_ in ast.walk(rem.node))
     pops = [n_ for n_ in ast.walk(rem.node) if isinstance(n_, ast.Call) and attr_chain(n_.func) == "self.steps.pop"]
@@ -546,8 +555,36 @@ def rule_parallel(repo: Repo, rep: Report) -> int:
     add = repo.method(ci, "add_step")
     ok = any(match(x, "self.step_configs.append((name, step))") is not None for x in ast.walk(add.node))
     wrong = any(isinstance(x, ast.Call) and attr_chain(x.func) == "self.step_configs.insert" for x in ast.walk(add.node))
-    rep.shape(ok, wrong, "SEQ-LIST", add, "add_step appends (name, step) to self.step_configs", "declared order = insertion order", "add_step does not append (name, step) at the end")
+    guard = _append_guard(add, "self.step_configs.append")
+    if ok and not wrong and guard is not None:
+        dup = any(isinstance(c_, ast.Compare) and any(isinstance(o_, (ast.In, ast.NotIn, ast.Is, ast.IsNot, ast.Eq, ast.NotEq)) for o_ in c_.ops) and ("self.step_configs" in unparse(c_) or "step" in {x_.id for x_ in ast.walk(c_) if isinstance(x_, ast.Name)}) for c_ in ast.walk(guard.test))
+        if dup:
+            rep.violation("SEQ-LIST", add, f"add_step appends only if {unparse(guard.test)[:70]}", "a branch declared with a stage that is already present is silently dropped: the parallel model no longer runs every declared branch", node=guard)
+        else:
+            rep.undecided("SEQ-LIST", add, f"add_step appends only if {unparse(guard.test)[:70]}", "conditional append", node=guard)
+    else:
+        rep.shape(ok, wrong, "SEQ-LIST", add, "add_step appends (name, step) to self.step_configs", "declared order = insertion order", "add_step does not append (name, step) at the end")
     return n + 1
+
+
+def _append_guard(fi: FuncInfo, chain: str):
+    """the innermost `if` whose body (not a raising guard's fall-through) holds the append call, None when the append runs on
+    every path that does not raise"""
+    set_parents(fi.node)
+    for c_ in ast.walk(fi.node):
+        if isinstance(c_, ast.Call) and attr_chain(c_.func) == chain:
+            for a_ in ancestors(c_):
+                if a_ is fi.node:
+                    break
+                if isinstance(a_, (ast.If, ast.While, ast.For)):
+                    if isinstance(a_, ast.If):
+                        # `if cond: raise ... else: append` is a validation, not a condition on the append
+                        other = a_.orelse if any(c_ is x for s_ in a_.body for x in ast.walk(s_)) else a_.body
+                        if other and all(isinstance(s_, ast.Raise) for s_ in other):
+                            continue
+                        return a_
+                    return None
+    return None
 
 
 # ---------------------------------------------------------------------------
